@@ -35,6 +35,11 @@ def parseOp (ws : List String) : Option Op :=
   | ["rmfab", s, i] => some (.rmfab (nat s) (nat i))
   | ["revoke", s] => some (.revoke (nat s))
   | ["bcw", s, v] => some (.bcw (nat s) (nat v))
+  | ["gkm", s, _] => some (.fwrite (nat s))
+  | ["nlabel", s, _] => some (.ext (nat s))
+  | ["ulabel", s, _] => some (.ext (nat s))
+  | ["bind", s, _] => some (.ext (nat s))
+  | ["sub", s] => some (.ext (nat s))
   | ["tick", t] => some (.tick (nat t))
   | ["poll"] => some .poll
   | ["flush"] => some .flush
@@ -82,6 +87,8 @@ structure View where
   kvRes : String := "none"
   kvOther : String := ""
   k : Nat := 0
+  /-- handler-level extension `X{…}`: memory and stored sections by name (empty at state level) -/
+  x : List (String × String) := []
 deriving Inhabited
 
 /-- text between the first `tag` and the next `]` -/
@@ -111,10 +118,30 @@ def parseRes (e : String) : ResV :=
   | [f, p, r] => { fab := nat f, peer := nat p, rid := nat r }
   | _ => { fab := 0, peer := 0, rid := 0 }
 
+/-- the sections `NAME[...]` of the extension part ` X{ ... }` -/
+def parseX (rest : String) : List (String × String) :=
+  match rest.splitOn " X{" with
+  | _ :: x :: _ =>
+    let body := (x.splitOn "}").headD ""
+    (body.splitOn " ").filterMap (fun w =>
+      match w.splitOn "[" with
+      | [name, v] => some (name, (v.splitOn "]").headD "")
+      | _ => none)
+  | _ => []
+
+def xget (v : List (String × String)) (name : String) : String :=
+  match v.find? (fun p => p.1 = name) with
+  | some p => p.2
+  | none => ""
+
+/-- the line without the extension part (what the model is compared with) -/
+def stripX (out : String) : String := (out.splitOn " X{").headD out
+
 def parseView (out : String) : Option View :=
-  match out.splitOn " | " with
-  | [status, rest] =>
-    match rest.splitOn " KV{" with
+  match (stripX out).splitOn " | " with
+  | [status, rest0] =>
+    let rest := rest0 ++ (match out.splitOn " X{" with | _ :: x :: _ => " X{" ++ x | _ => "")
+    match rest0.splitOn " KV{" with
     | [mem, kv] =>
       let fsS := sect mem " FS["
       let armed := if fsS = "idle" then none else some (nat ((fsS.splitOn ".").headD "0"))
@@ -122,7 +149,7 @@ def parseView (out : String) : Option View :=
         | _ :: r :: _ => (r.splitOn " O[").headD ""
         | _ => ""
       let k := match kv.splitOn "} k=" with
-        | _ :: r :: _ => nat r
+        | _ :: r :: _ => nat ((r.splitOn " ").headD "0")
         | _ => 0
       some { status := status
              fabs := (items (sect mem "F[")).map parseFab
@@ -134,7 +161,8 @@ def parseView (out : String) : Option View :=
              kvNets := sect kv " N["
              kvRes := kvR
              kvOther := sect kv " O["
-             k := k }
+             k := k
+             x := parseX rest }
     | _ => none
   | _ => none
 
@@ -167,6 +195,10 @@ structure OSt where
   /-- a factory reset ran and the node has not restarted yet (`Matter::factory_reset` leaves the
   session table alone: the sessions of the wiped fabrics are not judged) -/
   wiped : Bool := false
+  /-- handler-level extension: committed values by name (`B`, `UL`, `NL`, `K:<fab>`) -/
+  cmtX : List (String × String) := []
+  /-- bindings / subscriptions with the incarnation of the fabric they were made for -/
+  xBind : List (String × Nat) := []
 deriving Inhabited
 
 def lookupD (l : List (Nat × α)) (k : Nat) (d : α) : α :=
@@ -203,7 +235,23 @@ def restartLike : Op → Bool
   | _ => false
 
 /-- the oracle: returns the new bookkeeping and the violations, each tagged with its property -/
-def oracle (st : OSt) (op : Op) (v : View) : OSt × List String :=
+def setS (l : List (String × String)) (k v : String) : List (String × String) := (k, v) :: l.filter (fun x => x.1 ≠ k)
+
+def getS (l : List (String × String)) (k d : String) : String :=
+  match l.find? (fun x => x.1 = k) with
+  | some x => x.2
+  | none => d
+
+/-- the entry `<fab>:<value>` of a per-fabric section such as `K[1:5+6;2:-]` -/
+def fabEntry (sec : String) (fab : Nat) : String :=
+  match (items sec).find? (fun e => (e.splitOn ":").headD "" = toString fab) with
+  | some e => ":".intercalate ((e.splitOn ":").drop 1)
+  | none => "-"
+
+/-- fabric index of an entry `<fab>.<x>` -/
+def entryFab (e : String) : Nat := nat ((e.splitOn ".").headD "0")
+
+def oracle (st : OSt) (op : Op) (v : View) (kind : String) : OSt × List String :=
   let p := st.prev
   let okS := isOk v.status
   let opSess : Option SessV := (isSessOp op).bind (fun sid => p.sess.find? (fun s => s.id = sid))
@@ -314,7 +362,7 @@ def oracle (st : OSt) (op : Op) (v : View) : OSt × List String :=
   -- what the acknowledgements committed
   let underFs : Bool := p.armed = some opFab && !expiredByTimer
   let isWrite : Bool := match op with
-    | .acl .. | .grp .. | .label .. => true
+    | .acl .. | .grp .. | .label .. | .fwrite _ => true
     | _ => false
   let isComplete : Bool := match op with
     | .complete _ => true
@@ -401,11 +449,76 @@ def oracle (st : OSt) (op : Op) (v : View) : OSt × List String :=
          [], "-:0", st.hist, false, [])
       else ([], cmtF, cmtN, st.hist, true, dirty)
     | _ => ([], cmtF, cmtN, st.hist, st.cmtUnknown, dirty)
+  -- 7. handler-level extension (real Write / Subscribe interactions): group key map, bindings, user
+  -- labels, node label, subscriptions
+  let hasX := !v.x.isEmpty
+  let xm (name : String) : String := xget v.x name
+  let isExtWrite := okS && (kind == "bind" || kind == "ulabel" || kind == "nlabel")
+  let secOf : String := if kind == "bind" then "B" else if kind == "ulabel" then "UL" else "NL"
+  let vx1 : List String :=
+    if hasX && isExtWrite && xm secOf ≠ xm ("K" ++ secOf) then
+      [s!"C11 acked-ext-not-stored: {kind} acknowledged, node has {secOf}[{xm secOf}] but a node restarted from the store would load [{xm ("K" ++ secOf)}]"]
+    else if hasX && okS && kind == "gkm" && !underFs && fabEntry (xm "K") opFab ≠ fabEntry (xm "KK") opFab then
+      [s!"C11 acked-ext-not-stored: group key map of fabric {opFab} is [{fabEntry (xm "K") opFab}] in memory but [{fabEntry (xm "KK") opFab}] in the store after an acknowledged write outside a fail-safe"]
+    else []
+  -- committed view of the extension
+  let cx0 := st.cmtX
+  let cx1 := if isExtWrite then setS cx0 secOf (xm secOf) else cx0
+  let cx2 := if okS && kind == "gkm" && !underFs then setS cx1 s!"K:{opFab}" (fabEntry (xm "K") opFab) else cx1
+  let cx3 := if isComplete && okS then setS cx2 s!"K:{opFab}" (fabEntry (xm "K") opFab) else cx2
+  -- a fabric that goes away takes its bindings with it (`LifecycleOp::FabricRemoval`, stored at once)
+  let cx4 := if removed.isEmpty || restartLike op then cx3 else
+    setS (cx3.filter (fun e => !(removed.any (fun i => e.1 == s!"K:{i}"))))
+      "B" (";".intercalate ((items (getS cx3 "B" "")).filter (fun e => !removed.contains (entryFab e))))
+  let vx2 : List String :=
+    if !hasX then []
+    else match op with
+      | .coldreset | .fabrecover _ =>
+        if xm "B" ≠ "" || xm "UL" ≠ "" || (xm "NL" ≠ "-" && xm "NL" ≠ "") || xm "SUB" ≠ "" || xm "KB" ≠ "" || xm "KUL" ≠ "" || xm "KSUB" ≠ "" then
+          [s!"C11 factory-reset-leftover: extension B[{xm "B"}] UL[{xm "UL"}] NL[{xm "NL"}] SUB[{xm "SUB"}] stored B[{xm "KB"}] UL[{xm "KUL"}] SUB[{xm "KSUB"}]"]
+        else []
+      | .restart | .crash _ | .corrupt =>
+        (["B", "UL", "NL"].filterMap (fun name =>
+          let want := getS cx4 name (if name == "NL" then "-" else "")
+          if xm name ≠ want then some s!"C11 restart-mismatch: after the restart {name}[{xm name}] but acknowledged [{want}]" else none)) ++
+        (v.fabs.filterMap (fun f =>
+          let want := getS cx4 s!"K:{f.idx}" "-"
+          if fabEntry (xm "K") f.idx ≠ want then
+            some s!"C11 restart-mismatch: after the restart the group key map of fabric {f.idx} is [{fabEntry (xm "K") f.idx}] but committed [{want}]"
+          else none))
+      | _ => []
+  let cx5 := match op with
+    | .coldreset | .fabrecover _ => []
+    | _ => cx4
+  -- C08: the deferred group key map is undone with the fail-safe
+  let vx3 : List String :=
+    if !hasX || !ended || restartLike op || isComplete then []
+    else v.fabs.filterMap (fun f =>
+      let want := getS cx5 s!"K:{f.idx}" "-"
+      if !dirty.contains f.idx && fabEntry (xm "K") f.idx ≠ want then
+        some s!"C08 rollback-mismatch: after the fail-safe ended without completion the group key map of fabric {f.idx} is [{fabEntry (xm "K") f.idx}] but committed [{want}]"
+      else none)
+  -- C07: bindings / subscriptions of a fabric that is gone, or of another incarnation of the index
+  let xents : List String := (items (xm "B")).map (fun e => "B " ++ e) ++ (items (xm "SUB")).map (fun e => "SUB " ++ e)
+  let xBind : List (String × Nat) := if restartLike op && !hasX then [] else xents.map (fun e =>
+    match st.xBind.find? (fun b => b.1 = e) with
+    | some b => b
+    | none => (e, lookupD inc (entryFab ((e.splitOn " ").getLastD "")) 0))
+  let vx4 : List String := if !hasX || wiped then [] else
+    xents.filterMap (fun e =>
+      let fab := entryFab ((e.splitOn " ").getLastD "")
+      if !present fab then some s!"C07 ext-outlives-fabric: [{e}] refers to fabric index {fab}, which is gone"
+      else match xBind.find? (fun b => b.1 = e) with
+        | some b => if b.2 ≠ lookupD inc fab 0 then
+            some s!"C07 stale-ext: [{e}] was made for incarnation {b.2} of fabric index {fab} and is still there on incarnation {lookupD inc fab 0}"
+          else none
+        | none => none)
   let hist := (v.k, (cmtF, cmtN), op == .freset) :: hist
   ({ prev := v, inc := inc, sessBind := sessBind, resBind := resBind, kvResBind := kvResBind,
      cmtF := cmtF, cmtN := cmtN, cmtUnknown := cmtUnknown, dirty := dirty, hist := hist,
-     now := now, deadline := deadline, csr0 := csr0, csr1 := csr1, rootC := rootC, nocC := nocC, wiped := wiped },
-   v07a ++ v07b ++ v07c ++ v07d ++ v08g ++ v08c ++ v08r ++ v08e ++ v11w ++ v11r)
+     now := now, deadline := deadline, csr0 := csr0, csr1 := csr1, rootC := rootC, nocC := nocC, wiped := wiped,
+     cmtX := cx5, xBind := xBind },
+   v07a ++ v07b ++ v07c ++ v07d ++ vx4 ++ vx3 ++ vx1 ++ vx2 ++ v08g ++ v08c ++ v08r ++ v08e ++ v11w ++ v11r)
 
 /-! ## the driver loop -/
 
@@ -450,15 +563,19 @@ def step (st : St) (line : String) : St × String :=
             let (n2, _) := Admin.step st.cfg n1 .poll
             (n2, .ok)
           | _, _ => Admin.step st.cfg st.node op
+        let isExt : Bool := match op with
+          | .ext _ => true
+          | _ => false
         let statusS : String :=
-          if st.hmode && v.status = "rej" then (if status.accepted then status.render else "rej") else status.render
+          if isExt && status.accepted then v.status
+          else if st.hmode && v.status = "rej" then (if status.accepted then status.render else "rej") else status.render
         let modelOut := s!"{statusS} | {node'.dump}"
-        let (ost', viols) := oracle st.ost op v
+        let (ost', viols) := oracle st.ost op v (ws.headD "")
         let mine := viols.filter (fun m => m.startsWith st.prop)
         let st' := { st with node := node', ost := ost' }
         match mine with
         | m :: _ => (st', s!"ORA {m}")
-        | [] => if modelOut = out then (st', "ok") else (st', s!"DIS {modelOut}")
+        | [] => if modelOut = stripX out then (st', "ok") else (st', s!"DIS {modelOut}")
 
 def run (prop : String) : IO UInt32 := Driver.runLoop ({ prop := prop } : St) step
 
